@@ -249,7 +249,14 @@ def r3_protocol(ctx) -> None:
     for p in known:
         stop = f"{ip}.stop" if _has(p, {f"{ip}.stop is not None": True}) else "self._num_out_ports"
         want = f"(self[c0] for c0 in range(self._normalize_index({ip}.start or 0, True), self._normalize_index({stop}, True), {ip}.step or 1))"
-        ok = ok and p.value_text() in (want, want.replace("(self[c0] for", "[self[c0] for")[:-1] + "]")
+        # (each element is an integer: self[c0] is the integer arm of this same method applied to it -- which may be written out)
+        int_arm = [q for q in ps if q.kind == "return" and any(u(t) in (f"isinstance({ip}, PortOffset)", f"isinstance({ip}, int)") and k for t, k in q.tests)]
+        alts = [want, want.replace("(self[c0] for", "[self[c0] for")[:-1] + "]"]
+        if len(int_arm) == 1:
+            import re as _re
+            elem = _re.sub(rf"\b{_re.escape(ip)}\b", "c0", int_arm[0].value_text())
+            alts += [want.replace("self[c0] for", f"{elem} for"), (want.replace("(self[c0] for", f"[{elem} for")[:-1] + "]")]
+        ok = ok and p.value_text() in alts
     ctx.check(ok, "C16.R3", "Node._index: slice bounds normalised with clamping", m.path, ix.lineno, "", ix, found="; ".join(p.value_text() for p in known)[:300])
     ia = [p for p in ps if any(u(t) in (f"isinstance({ip}, PortOffset)", f"isinstance({ip}, int)") and k for t, k in p.tests)]
     ok = bool(ia) and all(p.kind == "return" and p.value_text() == f"self.out(self._normalize_index({ip}))" for p in ia)
